@@ -370,6 +370,11 @@ func (fv *FuncVerifier) siteEnv(e *Enc, b *ssa.BasicBlock, idx int) *Env {
 					if !ok || id.Name != name {
 						continue
 					}
+					if cl, ok := fv.w.litOfLHS[id.Pos()]; ok && !x.IsAddr {
+						if v := fv.litValue(cl); v != nil {
+							return EV{e.val(v), SType{T: v.Type()}}, true
+						}
+					}
 					if x.IsAddr {
 						p := e.ptrOf(x.X)
 						return EV{e.load(p), SType{T: p.typ}}, true
@@ -397,6 +402,18 @@ func (fv *FuncVerifier) siteEnv(e *Enc, b *ssa.BasicBlock, idx int) *Env {
 		return EV{}, false
 	}
 	return env
+}
+
+// litValue: the SSA value x/tools bound to composite literal cl in this function
+func (fv *FuncVerifier) litValue(cl ast.Expr) ssa.Value {
+	for _, blk := range fv.fn.Blocks {
+		for _, in := range blk.Instrs {
+			if d, ok := in.(*ssa.DebugRef); ok && !d.IsAddr && d.Expr == cl {
+				return d.X
+			}
+		}
+	}
+	return nil
 }
 
 // invariant environment at header h; phiSubst maps header phis to incoming values (for checking on an edge)
